@@ -268,6 +268,10 @@ func (c *Cache) downloadZip1(ctx context.Context, mod module.Version, zipfile st
 	if _, err := io.Copy(f, r); err != nil {
 		return fmt.Errorf("failed to get module zip contents: %v", err)
 	}
+	// The contents are not known to be correct until Close has succeeded.
+	if err := r.Close(); err != nil {
+		return fmt.Errorf("failed to get module zip contents: %v", err)
+	}
 	if err := f.Close(); err != nil {
 		return err
 	}
